@@ -51,8 +51,14 @@ fn main() {
 
     let plan = match args.strategy.as_str() {
         "dtree" => {
-            let dtree = DTree::from_cnf(&cnf, &order);
-            BottomUpPlan::from_dtree(&dtree)
+            if cnf.clauses().is_empty() {
+                // a decomposition tree has one leaf per clause: there is none for the formula
+                // without clauses, which is the constant true
+                BottomUpPlan::ConstTrue
+            } else {
+                let dtree = DTree::from_cnf(&cnf, &order);
+                BottomUpPlan::from_dtree(&dtree)
+            }
         }
         _ => panic!(
             "Unknown strategy {} provided, expected one of: `dtree`",
